@@ -142,7 +142,7 @@ theorem nnWrapX_rel (φ : List Ev → List Ev) (r : T FRes) : nnWrapX (mapT φ r
 
 theorem itemWrapX_rel (φ : List Ev → List Ev) (D : AGV.Model.ExecStatic.Defects) (p : List PathSeg) (r : T FRes) :
     itemWrapX D p (mapT φ r) = mapT φ (itemWrapX D p r) := by
-  by_cases h : (D.listItemPathOverwrite && r.1.val.isNone) = true <;> simp [itemWrapX, mapT, h]
+  by_cases h : r.1.val.isNone = true <;> simp [itemWrapX, mapT, h]
 
 theorem leaf_rel {φ : List Ev → List Ev} (hφ : Hom φ) (r : FRes) : ((r, []) : T FRes) = mapT φ (r, []) := by
   simp [mapT, hφ.nil]
